@@ -3,10 +3,14 @@
 (* most MaxLines lines over {a, space} with lengths 0..MaxLineLen, at every       *)
 (* width 1..MaxW and height 1..MaxH with unlimited scrollback:                    *)
 (*   text() = the input lines (trailing spaces trimmed, trailing empties aside),  *)
-(*   unwrapping lines() gives the same, and the result is the same at every width.*)
+(*   unwrapping lines() gives the same, and the result is the same at every width;*)
+(* and (MidResize) the same still holds when the HEIGHT changes in the middle of  *)
+(* the input, cut at every position (a width change in mid-line is not covered by *)
+(* any statement: the position after the last character of a full row exists only *)
+(* as a pending wrap, which a width change clears).                               *)
 EXTENDS Props, TLC
 
-CONSTANTS MaxLines, MaxLineLen, MaxW, MaxH
+CONSTANTS MaxLines, MaxLineLen, MaxW, MaxH, MidResize
 VARIABLES txt, ok
 vars == <<txt, ok>>
 
@@ -22,8 +26,21 @@ TextProps(ls) ==
     /\ TextOK(Text(v.t), ls)
     /\ UnwrapOK(v, ls)
     /\ DropTrailingEmpty(Text(v.t)) = DropTrailingEmpty(Text(TextAt(ls, 1, 1).t))      \* the same at every width
-Init == txt \in Texts /\ ok = TextProps(txt)
-Next == FALSE /\ UNCHANGED vars
+(* the same when the screen is resized in the middle of the input: cut the input  *)
+(* at every position, resize to every other size, feed the rest                    *)
+TextResized(ls, w, h, k, w2, h2) ==
+  LET inp == Join(ls)
+      v1 == FeedStr(Fresh(w, h, -1), SubSeq(inp, 1, k)).vt
+      v2 == ResizeCall(v1, w2, h2).vt
+  IN FeedStr(v2, SubSeq(inp, k + 1, Len(inp))).vt
+MidProps(ls) ==
+  \A w \in 1..MaxW, h \in 1..MaxH, w2 \in 1..MaxW, h2 \in 1..MaxH, k \in 0..Len(Join(ls)) :
+    (w2 # w) \/
+    LET v == TextResized(ls, w, h, k, w2, h2) IN
+    (TextOK(Text(v.t), ls) /\ UnwrapOK(v, ls)) \/ PrintT(<<"MID", ls, w, h, k, w2, h2, Text(v.t)>>) = FALSE
+(* the texts are the initial states; the verdict is computed in one step, so that TLC's workers share the load *)
+Init == txt \in Texts /\ ok = "todo"
+Next == ok = "todo" /\ txt' = txt /\ ok' = (IF TextProps(txt) /\ (MidResize => MidProps(txt)) THEN "yes" ELSE "no")
 Spec == Init /\ [][Next]_vars
-AllOK == ok
+AllOK == ok # "no"
 =============================================================================
